@@ -11,7 +11,7 @@ PROPERTY = "C04"
 SHARDS = {"quick": 6, "thorough": 16}
 RULE = (
     "cases: provenance matrix - nodes {lon/lat only, xyz only (face-vertex constructor), both, both with a "
-    "non-unit radius} x face centres {absent, lon/lat, xyz, both} x edge centres {absent, lon/lat, xyz, both} "
+    "non-unit radius, both with integer-typed Cartesian coordinates} x face centres {absent, lon/lat, xyz, both} x edge centres {absent, lon/lat, xyz, both} "
     "(supplied centres are deliberately offset from the corner mean so supplied and derived values cannot be "
     "confused) x longitudes given in 0..360 or -180..180 x meshes with nodes on a pole / the antimeridian / the "
     "prime meridian x first-access order of the six coordinate groups (720 orders; components of a group read lon,lat / x,y,z or reversed; ranges checked at the first read and again at the end; sampled in quick, thorough "
@@ -24,7 +24,7 @@ GROUPS = ["node_ll", "node_xyz", "edge_ll", "edge_xyz", "face_ll", "face_xyz"]
 ORDERS = list(itertools.permutations(range(6)))
 MIN_EVAL = {"quick": {"same_point": 800, "lon_lat_range": 800, "derived_unit_length": 300, "derived_centre_is_corner_mean": 200, "normalize_keeps_direction": 600},
             "thorough": {"same_point": 15000, "lon_lat_range": 15000, "derived_unit_length": 5000, "derived_centre_is_corner_mean": 3500, "normalize_keeps_direction": 10000}}
-NODE_PROV = ["ll", "xyz", "both", "both_radius"]
+NODE_PROV = ["ll", "xyz", "both", "both_radius", "both_int"]
 CEN_PROV = ["none", "ll", "xyz", "both"]
 
 
@@ -33,7 +33,7 @@ def cases(tier, seed):
     n = 450 if tier == "quick" else 45000
     for i in range(n):
         d = gen.random_mesh(rng, 60 if tier == "quick" else 250)
-        yield {"mesh": d, "node": NODE_PROV[int(rng.integers(0, 4))], "face": CEN_PROV[int(rng.integers(0, 4))],
+        yield {"mesh": d, "node": NODE_PROV[int(rng.integers(0, 5))], "face": CEN_PROV[int(rng.integers(0, 4))],
                "edge": CEN_PROV[int(rng.integers(0, 4))], "lon360": bool(rng.random() < 0.5),
                "order": int(rng.integers(0, 720)), "cseed": int(rng.integers(0, 10**6)), "cradius": bool(rng.random() < 0.3), "rev": bool(rng.random() < 0.5)}
     if tier == "thorough":
@@ -66,6 +66,13 @@ def build(case, m):
         g = U.Grid.from_face_vertices(fv, latlon=False)
         return g, {"node_xyz"}
     supplied.add("node_ll")
+    if case["node"] == "both_int":
+        # Cartesian coordinates stored as integers (a cube given by its corners (+-1,+-1,+-1) is the everyday example);
+        # lon/lat are those of the integer vectors, so both representations denote the same points
+        V = np.rint(m.xyz * 1000.0)
+        lon, lat = ref.xyz_to_lonlat(V)
+        kw.update(node_x=V[:, 0].astype(np.int64), node_y=V[:, 1].astype(np.int64), node_z=V[:, 2].astype(np.int64))
+        supplied.add("node_xyz")
     if case["node"] in ("both", "both_radius"):
         kw.update(node_x=m.xyz[:, 0] * radius, node_y=m.xyz[:, 1] * radius, node_z=m.xyz[:, 2] * radius)
         supplied.add("node_xyz")
@@ -163,13 +170,16 @@ def run_case(ctx, case):
         ctx.check("first_read_equals_final", same, sig, {"order": order, "case": case})
     # derived centres = normalised mean of the element's corner unit vectors
     nodeP = ref.lonlat_to_xyz(*final["node_ll"])
-    if "face_ll" not in supplied and "face_xyz" not in supplied:
+    # integer-rounded vectors have slightly different lengths: the mean of the supplied vectors is then not the mean of the
+    # unit vectors, and the statement speaks of points on one sphere - the clause is not evaluated for that provenance
+    equal_radius = case["node"] != "both_int"
+    if equal_radius and "face_ll" not in supplied and "face_xyz" not in supplied:
         rings = ux.grid_face_rings(g)
         want = np.array([ref.unit(nodeP[r].mean(axis=0)) for r in rings])
         got = ref.lonlat_to_xyz(*final["face_ll"])
         err = float(np.max(ref.angle(want, got)))
         ctx.check("derived_centre_is_corner_mean", err < 1e-9, {"kind": "face", "prov": prov["node"]}, {"max_err_rad": err, "case": case})
-    if "edge_ll" not in supplied and "edge_xyz" not in supplied:
+    if equal_radius and "edge_ll" not in supplied and "edge_xyz" not in supplied:
         en = np.asarray(g.edge_node_connectivity.values)
         want = ref.unit(nodeP[en[:, 0]] + nodeP[en[:, 1]])
         got = ref.lonlat_to_xyz(*final["edge_ll"])
@@ -182,7 +192,7 @@ def run_case(ctx, case):
         g.normalize_cartesian_coordinates()
         after = {k: np.stack(read_group(g, k + "_xyz"), axis=-1) for k in ("node", "edge", "face")}
         for k in ("node", "edge", "face"):
-            sig = {"kind": k, "prov": prov[k], "radius": case["node"] == "both_radius", "centre_radius_only": bool(case.get("cradius")) and case["node"] != "both_radius"}
+            sig = {"kind": k, "prov": prov[k], "radius": case["node"] in ("both_radius", "both_int"), "centre_radius_only": bool(case.get("cradius")) and case["node"] != "both_radius"}
             ang = float(np.max(ref.angle(before[k], after[k])))
             ctx.check("normalize_keeps_direction", ang < 1e-12, sig, {"max_angle": ang, "case": case})
             dev = float(np.max(np.abs(np.linalg.norm(after[k], axis=-1) - 1.0)))
